@@ -107,7 +107,10 @@ def r1_ownership(repo, rep, cls):
   if gd is not None:
     rets = [s for s in walk_no_nested(gd.node) if isinstance(s, ast.Return) and s.value is not None and not au.is_const(s.value, None)]
     for r in rets:
-      rep.check('.copy(' in norm(r.value), 'R1/ownership', 'get_data returns a copy', gd.qualname, norm(r),
+      gctx_ = cfgmod.CFG(gd.node)
+      grd_ = dataflow.Reaching(gctx_)
+      rx_ = grd_.expand(gctx_.node_of(r), r.value, aliases=True)[0] if gctx_.node_of(r) is not None else r.value
+      rep.check_term('.copy(' in norm(rx_) or 'deepcopy(' in norm(rx_), rx_, (), 'R1/ownership', 'get_data returns a copy', gd.qualname, norm(r),
                 'get_data returns the internal frame itself: the caller can change the screened data', gd.loc(r))
 
 
@@ -133,6 +136,15 @@ def r2_r3_fit(repo, rep, cls):
             col = norm(call.func.value)
             if re.fullmatch(r'self\._data\[self\._df_names\.%s\]' % colattr, col):
               isins.append((n, call))
+    if not isins:
+      # no filter in the recognised form: any other membership filter, drop or re-binding of the screened data may do the removal
+      other = [norm(c_)[:60] for n_ in g.nodes if n_.kind == 'stmt' for c_ in au.calls_in(n_.ast)
+               if isinstance(c_.func, ast.Attribute) and c_.func.attr in ('isin', 'drop', 'query', 'mask', 'where', 'filter')]
+      rebinds = [n_ for n_ in g.nodes if n_.kind == 'stmt' and isinstance(n_.ast, ast.Assign) and any(norm(t_) == 'self._data' for t_ in n_.ast.targets) and n_.id > rn.id]
+      if other or rebinds:
+        rep.undecided('R2/report-equals-removal', key, 'the reported %s are not removed through `self._data[self._df_names.%s].isin(...)`; the screened data are changed by %s, which is not followed'
+                      % (key, colattr, (other + [norm(r_.ast)[:60] for r_ in rebinds])[0]), fit.loc(rn.ast))
+        continue
     if len(isins) != 1:
       rep.violation('R2/report-equals-removal', fit.qualname, "removal of %s" % key,
                     'no filter `self._data[self._df_names.%s].isin(...)` found for the reported %s: the reported items are not removed from the screened data (or another column is filtered)'
@@ -189,6 +201,15 @@ def r2_r3_fit(repo, rep, cls):
           p = None
       except Undecided:
         pass
+    if p is not None:
+      by_value = [x_ for x_ in ast.walk(fit.node) if isinstance(x_, ast.Attribute) and x_.attr == '_create_analysis_data'
+                  and not (isinstance(getattr(x_, '_parent', None), ast.Call) and x_._parent.func is x_)]
+      indirect = [c_ for n_, _l in p for c_ in (au.calls_in(n_.ast) if n_.ast is not None and n_.kind == 'stmt' else [])
+                  if isinstance(c_.func, ast.Name) and not c_.func.id[:1].isupper() and c_.func.id not in ('len', 'list', 'set', 'sorted', 'print', 'max', 'min')]
+      if by_value or indirect:
+        rep.undecided('R3/reaggregate', 'store `%s`' % norm(s.ast)[:50], 'the re-aggregation is invoked indirectly (%s): not followed'
+                      % (('self._create_analysis_data is handed over as a value' if by_value else 'call of the local callable `%s`' % norm(indirect[0])[:40])), fit.loc(s.ast))
+        continue
     rep.check(p is None, 'R3/reaggregate', 'store `%s` is followed by re-aggregation on every path' % norm(s.ast)[:50], fit.qualname,
               norm(s.ast)[:120], 'after `%s` some path reaches the end of fit() without calling _create_analysis_data(): the aggregated series still contain the removed rows (path: %s)'
               % (norm(s.ast)[:60], ' -> '.join('L%d' % n.lineno for n, _ in (p or []) if n.lineno)), fit.loc(s.ast))
@@ -215,13 +236,16 @@ def r4_r5_aggregation(repo, rep, cls):
     v = au.kwarg(call, name)
     return norm(rd.expand(n, v)[0]) if v is not None else None
   idx, cols, vals, agg = arg('index'), arg('columns'), arg('values'), arg('aggfunc')
-  rep.check(idx is not None and 'self._df_names.date' in idx and 'self._df_names.period' in idx and 'group' not in idx and 'geo' not in idx,
+  def argx(name):
+    v_ = au.kwarg(call, name)
+    return rd.expand(n, v_)[0] if v_ is not None else ast.Constant(value=None)
+  rep.check_term(idx is not None and 'self._df_names.date' in idx and 'self._df_names.period' in idx and 'group' not in idx and 'geo' not in idx, argx('index'), (),
             'R4/aggregation', 'rows are (date, period)', f.qualname, 'index=%s' % idx, 'pivot index is %s, not (date, period)' % idx, f.loc(call))
-  rep.check(cols is not None and re.search(r'self\._df_names\.group', cols) is not None and 'date' not in cols.replace('self._df_names.date, self._df_names.period, ', ''),
+  rep.check_term(cols is not None and re.search(r'self\._df_names\.group', cols) is not None and 'date' not in cols.replace('self._df_names.date, self._df_names.period, ', ''), argx('columns'), (),
             'R4/aggregation', 'columns are the relabelled group', f.qualname, 'columns=%s' % cols, 'pivot columns are %s, not the group label' % cols, f.loc(call))
-  rep.check(vals is not None and 'self._target' in vals, 'R4/aggregation', 'values are the target metric', f.qualname, 'values=%s' % vals,
+  rep.check_term(vals is not None and 'self._target' in vals, argx('values'), (), 'R4/aggregation', 'values are the target metric', f.qualname, 'values=%s' % vals,
             'pivot values are %s, not the target' % vals, f.loc(call))
-  rep.check(agg in ('np.sum', "'sum'", 'numpy.sum', 'sum'), 'R4/aggregation', 'aggregation is the sum', f.qualname, 'aggfunc=%s' % agg,
+  rep.check_term(agg in ('np.sum', "'sum'", 'numpy.sum', 'sum'), argx('aggfunc'), (), 'R4/aggregation', 'aggregation is the sum', f.qualname, 'aggfunc=%s' % agg,
             'rows are aggregated with %s instead of the sum (per-date totals)' % agg, f.loc(call))
   # relabel construct: exactly control->x, treatment->y, others dropped (NaN label is dropped by the pivot)
   relabel = None
@@ -249,7 +273,7 @@ def r4_r5_aggregation(repo, rep, cls):
     body = mm.group(1)
     keys = set(re.findall(r'self\._groups\.(\w+):', body))
     vals_ = re.findall(r":\s*'(\w)'", body)
-    rep.check(keys == {'control', 'treatment'} and sorted(vals_) == ['x', 'y'] and re.search(r"self\._groups\.control: 'x'", body) is not None,
+    rep.check_term(keys == {'control', 'treatment'} and sorted(vals_) == ['x', 'y'] and re.search(r"self\._groups\.control: 'x'", body) is not None, rd.expand(m, m.ast.value)[0], (),
               'R4/aggregation', 'only control->x and treatment->y are relabelled; other groups are dropped', f.qualname, v[:140],
               'group relabelling %s does not map exactly control to x and treatment to y' % v[:120], f.loc(m.ast))
   elif 'np.where(' in v or 'numpy.where(' in v:
